@@ -32,11 +32,17 @@ pub fn bpm(last_hit_object: Option<&HitObject>, timing_points: &[TimingPoint]) -
     }
 
     let most_common_beat_len = bpm_points
-        .map
-        .into_iter()
+        .durations
+        .iter()
         // * Get the most common one, or 0 as a suitable default
-        .max_by(|(_, a), (_, b)| a.total_cmp(b))
-        .map_or(0.0, |(beat_len, _)| f64::from_bits(beat_len));
+        // On ties the beat length that occurred first wins.
+        .fold(None, |best: Option<(f64, f64)>, &(beat_len, duration)| {
+            match best {
+                Some((_, best_duration)) if best_duration.total_cmp(&duration).is_ge() => best,
+                _ => Some((beat_len, duration)),
+            }
+        })
+        .map_or(0.0, |(beat_len, _)| beat_len);
 
     60_000.0 / most_common_beat_len
 }
@@ -44,23 +50,38 @@ pub fn bpm(last_hit_object: Option<&HitObject>, timing_points: &[TimingPoint]) -
 /// Maps `beat_len` to a cumulative duration
 struct BeatLenDuration {
     last_time: f64,
-    map: HashMap<u64, f64>,
+    /// Index into `durations` for each beat length's bits.
+    indices: HashMap<u64, usize>,
+    /// Beat lengths and their cumulative duration in order of first
+    /// occurrence so that the result does not depend on hash order.
+    durations: Vec<(f64, f64)>,
 }
 
 impl BeatLenDuration {
     fn new(last_time: f64) -> Self {
         Self {
             last_time,
-            map: HashMap::default(),
+            indices: HashMap::default(),
+            durations: Vec::new(),
         }
     }
 
     fn add(&mut self, beat_len: f64, curr_time: f64, next_time: f64) {
         let beat_len = (1000.0 * beat_len).round() / 1000.0;
-        let entry = self.map.entry(beat_len.to_bits()).or_default();
+        let Self {
+            last_time,
+            indices,
+            durations,
+        } = self;
 
-        if curr_time <= self.last_time {
-            *entry += next_time - curr_time;
+        let idx = *indices.entry(beat_len.to_bits()).or_insert_with(|| {
+            durations.push((beat_len, 0.0));
+
+            durations.len() - 1
+        });
+
+        if curr_time <= *last_time {
+            durations[idx].1 += next_time - curr_time;
         }
     }
 }
